@@ -450,6 +450,11 @@ def run_check(pid, tier, seed, keep=False):
                     drift.append(dict(run=rid, seq=0, why="lock outcome differs: want %s got %s" % (want, got)))
         acts |= {"lk_open", "lk_drop"}
 
+    if any(n["k"] == "unobserved_fs_path" for n in notes):
+        raise vlib.ToolError("the directory holds bytes the interposed file-system calls do not account for "
+                             "(the code writes through a path the shim does not observe): %s" %
+                             [n for n in notes if n["k"] == "unobserved_fs_path"][:2])
+
     # vacuity guard
     for k, n in P["need"].items():
         if cnt.get(k, 0) < n:
